@@ -214,15 +214,20 @@ CHECKS = {
             "order; that sequence is unique; strict=False adds exactly the start word; successor/predecessor are the head = least/greatest "
             "element, None iff the set is empty; predecessors are refused iff the language is infinite (isfinite model proved exact, no "
             "other error possible); without max_length the state-count bound loses no word of a finite language. Additionally a mirror model "
-            "of the explicit stack machine of DFA.successors (both directions, with the row-8 repair) is proved to generate exactly that "
+            "of the explicit stack machine of DFA.successors (both directions; incl. next_symbol for start symbols outside the alphabet, "
+            "back_at_parent and the empty-alphabet guard) is proved to generate exactly that "
             "list (total correctness: for every fuel it returns nothing else, and - by a termination measure over the trie of words of "
-            "length <= max_length, resp. <= |Q| through co-accessibility for a finite language - it does return, without KeyError/"
-            "IndexError, within the budget (words_upto(|alphabet|, hi) + |start| + 1) * (|alphabet| + 2) + 1 the driver uses; "
-            "hypotheses: start over the alphabet, non-empty alphabet, max_length given whenever the language is infinite). "
+            "length <= max_length, resp. <= |Q| through co-accessibility for a finite language - it does return, without any error, "
+            "within the budget (words_upto(|alphabet|, hi) + |start| + 1) * (|alphabet| + 2) + 1 the driver uses; "
+            "only hypothesis: max_length given whenever the language is infinite; nothing is assumed about the start word - symbols "
+            "inside, below, between, above the alphabet's - or the alphabet, which may be empty). "
             "The implementation's output (whole generated list, single-step result, exception "
             "kind) is compared literally with both models on generated DFAs x keys x starts x windows x directions.",
-            "Symbols are numbered by rank under the user's key (injective keys only). Open known findings: start string with a symbol "
-            "outside the alphabet (KeyError), empty alphabet (IndexError).", "7/C14"),
+            "All characters in play (alphabet and foreign characters of start strings) are numbered by rank under the user's key "
+            "(injective keys only), so the alphabet is a non-contiguous set of codes. Start strings with characters outside the "
+            "alphabet and DFAs over the empty alphabet are generated; the three repaired findings (KeyError on a foreign start "
+            "symbol, IndexError on the empty alphabet, and - found by the refinement proof - a prefix of the start string generated "
+            "again after a start symbol below the whole alphabet) are regressions.", "7/C14"),
     "C16": ("Coq theorems about a mirror model of NFA.edit_distance's (position, errors) grid against an inductive edit-derivation "
             "relation + differential correspondence (verified subset-construction comparator, DP oracle) against /repo",
             "Proved for every alphabet, reference word over it, bound k >= 0 and non-empty set of kinds (unbounded): the construction "
